@@ -5,6 +5,7 @@
   The light-client-attack (misbehaviour) path is NOT covered by these theorems (DESIGN.md §10).
 -/
 import ICS.Model.Equivocation
+import ICS.Model.Misbehaviour
 import ICS.Spec.C07
 namespace ICS.Props.C07
 open ICS ICS.Provider ICS.Epoch ICS.Equiv
@@ -311,5 +312,199 @@ example : handleDV exState [{ v := 2, isRed := false, amount := 1500000, complet
 
 example : handleDV exState [] "0" { a := exVote 1, b := { exVote 2 with chain := "c1-1" }, hv := some [40], ord := -1 } = none := by decide
 example : handleDV exState [] "0" { a := { exVote 1 with height := 4 }, b := { exVote 2 with height := 4 }, hv := some [40], ord := -1 } = none := by decide
+
+
+/-! ## light-client-attack evidence (Model/Misbehaviour.lean) -/
+
+
+/-- identity `k` put a genuine (own key, intact) non-absent commit signature on the header -/
+def Signed (h : Hdr) (k : Nat) : Prop := ∃ s ∈ h.sigs, s.key = k ∧ s.flag ≠ .absent ∧ s.sigOK = true
+
+theorem signerOf_mem (sigs : List CSig) (k : Nat) (s : CSig) (h : signerOf sigs k = some s) :
+    s ∈ sigs ∧ s.key = k ∧ s.flag ≠ .absent := by
+  unfold signerOf at h
+  have hm := List.mem_of_getLast? h
+  have := List.mem_filter.mp hm
+  refine ⟨this.1, ?_, ?_⟩
+  · have h2 := this.2; simp only [Bool.and_eq_true, bne_iff_ne, ne_eq, beq_iff_eq] at h2; exact h2.2
+  · have h2 := this.2; simp only [Bool.and_eq_true, bne_iff_ne, ne_eq, beq_iff_eq] at h2; exact h2.1
+
+/-- one step of the intersection loop -/
+def byzStep (m : Misb) (acc : Option (List Nat)) (s2 : CSig) : Option (List Nat) :=
+  match acc with
+  | none => none
+  | some l =>
+    match signerOf m.h1.sigs s2.key with
+    | none => some l
+    | some s1 =>
+      if (powerOfKey m.h1.vals s1.key).isNone || !s1.sigOK then none
+      else if (powerOfKey m.h2.vals s2.key).isNone || !s2.sigOK then none
+      else some (l ++ [s2.key])
+
+theorem byzantine_eq (m : Misb) :
+    byzantine m = if !conflicting m && m.h1.round != m.h2.round then some []
+      else (m.h2.sigs.filter fun s => s.flag != .absent).foldl (byzStep m) (some []) := rfl
+
+theorem byzStep_inv (m : Misb) (P : Nat → Prop) (acc : Option (List Nat)) (s2 : CSig)
+    (hs2 : s2 ∈ m.h2.sigs ∧ s2.flag ≠ .absent)
+    (hP : ∀ k, Signed m.h1 k → Signed m.h2 k → P k)
+    (hacc : ∀ l, acc = some l → ∀ k ∈ l, P k) :
+    ∀ l, byzStep m acc s2 = some l → ∀ k ∈ l, P k := by
+  intro l hl k hk
+  unfold byzStep at hl
+  cases acc with
+  | none => simp at hl
+  | some l0 =>
+    simp only at hl
+    cases hso : signerOf m.h1.sigs s2.key with
+    | none => simp only [hso] at hl; injection hl with hl; subst hl; exact hacc l0 rfl k hk
+    | some s1 =>
+      simp only [hso] at hl
+      by_cases h1 : ((powerOfKey m.h1.vals s1.key).isNone || !s1.sigOK) = true
+      · simp [h1] at hl
+      · by_cases h2 : ((powerOfKey m.h2.vals s2.key).isNone || !s2.sigOK) = true
+        · simp [h1, h2] at hl
+        · simp only [h1, h2, Bool.false_eq_true, if_false, Option.some.injEq] at hl
+          subst hl
+          rcases List.mem_append.mp hk with hk | hk
+          · exact hacc l0 rfl k hk
+          · simp only [List.mem_singleton] at hk
+            subst hk
+            obtain ⟨hm1, hk1, hf1⟩ := signerOf_mem _ _ _ hso
+            have ok1 : s1.sigOK = true := by
+              cases hb : s1.sigOK <;> simp [hb] at h1 ⊢
+            have ok2 : s2.sigOK = true := by
+              cases hb : s2.sigOK <;> simp [hb] at h2 ⊢
+            exact hP s2.key ⟨s1, hm1, hk1, hf1, ok1⟩ ⟨s2, hs2.1, rfl, hs2.2, ok2⟩
+
+theorem foldl_byz_inv (m : Misb) (P : Nat → Prop) (hP : ∀ k, Signed m.h1 k → Signed m.h2 k → P k)
+    (sigs : List CSig) (hsub : ∀ s ∈ sigs, s ∈ m.h2.sigs ∧ s.flag ≠ .absent)
+    (acc : Option (List Nat)) (hacc : ∀ l, acc = some l → ∀ k ∈ l, P k) :
+    ∀ l, sigs.foldl (byzStep m) acc = some l → ∀ k ∈ l, P k := by
+  induction sigs generalizing acc with
+  | nil => exact hacc
+  | cons s rest ih =>
+    simp only [List.foldl_cons]
+    exact ih (fun s' hs' => hsub s' (List.mem_cons_of_mem _ hs')) _
+      (byzStep_inv m P acc s (hsub s List.mem_cons_self) hP hacc)
+
+/-- ONLY THOSE WHOSE KEYS PRODUCED BOTH CONFLICTING SIGNATURES: every identity returned by
+    GetByzantineValidators put a genuine non-absent signature on header 1 AND on header 2 -/
+theorem byzantine_sound (m : Misb) (l : List Nat) (h : byzantine m = some l) :
+    ∀ k ∈ l, Signed m.h1 k ∧ Signed m.h2 k := by
+  rw [byzantine_eq] at h
+  split at h
+  · injection h with h; subst h; intro k hk; cases hk
+  · refine foldl_byz_inv m (fun k => Signed m.h1 k ∧ Signed m.h2 k) (fun k a b => ⟨a, b⟩) _ ?_ (some []) ?_ l h
+    · intro s hs
+      have := List.mem_filter.mp hs
+      exact ⟨this.1, by simpa using this.2⟩
+    · intro l0 hl0 k hk; injection hl0 with hl0; subst hl0; cases hk
+
+/-- amnesia (same state transition, different commit rounds): nobody can be identified -/
+theorem amnesia_identifies_nobody (m : Misb) (h1 : conflicting m = false) (h2 : m.h1.round ≠ m.h2.round) :
+    byzantine m = some [] := by
+  rw [byzantine_eq]; simp [h1, h2]
+
+theorem punishAll_vals (x : Consumer) (ds : SlashJail) (unb : List Unb) (now : Time)
+    (ks : List Nat) (stk : List SVal) (effs : List Effect) (n : Nat) :
+    ∀ f ∈ (punishAll x ds unb now ks stk effs n).1, f ∈ effs ∨ ∃ k ∈ ks, f.val = providerOf x k := by
+  induction ks generalizing stk effs n with
+  | nil => intro f hf; exact Or.inl hf
+  | cons k ks ih =>
+    intro f hf
+    unfold punishAll at hf
+    cases hp : punish stk unb now (providerOf x k) ds with
+    | none =>
+      simp only [hp] at hf
+      rcases ih stk effs n f hf with h | ⟨k', hk', hv⟩
+      · exact Or.inl h
+      · exact Or.inr ⟨k', List.mem_cons_of_mem _ hk', hv⟩
+    | some es =>
+      simp only [hp] at hf
+      rcases ih _ _ _ f hf with h | ⟨k', hk', hv⟩
+      · rcases List.mem_append.mp h with h | h
+        · exact Or.inl h
+        · exact Or.inr ⟨k, List.mem_cons_self, punish_only_v _ _ _ _ _ _ hp f h⟩
+      · exact Or.inr ⟨k', List.mem_cons_of_mem _ hk', hv⟩
+
+theorem handleMisb_some (s : State) (unb : List Unb) (env : ClientEnv) (c : CId) (m : Misb) (effs : List Effect)
+    (h : handleMisb s unb env c m = some effs) :
+    misbBasicOK m = true ∧ checkMisb (s.get c) env m = true ∧
+    ∃ byz ds, byzantine m = some byz ∧ (s.get c).infr.bind (·.ds) = some ds ∧
+      effs = (punishAll (s.get c) ds unb s.now byz s.stk [] 0).1 ∧
+      (punishAll (s.get c) ds unb s.now byz s.stk [] 0).2 ≠ 0 := by
+  unfold handleMisb at h
+  by_cases hb : misbBasicOK m = true
+  · simp only [hb, Bool.not_true, Bool.false_eq_true, if_false] at h
+    by_cases hc : checkMisb (s.get c) env m = true
+    · simp only [hc, Bool.not_true, Bool.false_eq_true, if_false] at h
+      cases hz : byzantine m with
+      | none => simp [hz] at h
+      | some byz =>
+        simp only [hz] at h
+        cases hds : (s.get c).infr.bind (·.ds) with
+        | none => simp [hds] at h
+        | some ds =>
+          simp only [hds] at h
+          by_cases hn : ((punishAll (s.get c) ds unb s.now byz s.stk [] 0).2 == 0) = true
+          · simp [hn] at h
+          · simp only [hn, Bool.false_eq_true, if_false, Option.some.injEq] at h
+            exact ⟨hb, hc, byz, ds, rfl, rfl, h.symm, by simpa using hn⟩
+    · simp [hc] at h
+  · simp [hb] at h
+
+/-- a light-client attack punishes EXACTLY validators owning (on that consumer) a key that genuinely
+    signed both conflicting headers -/
+theorem misb_punishes_only_double_signers (s : State) (unb : List Unb) (env : ClientEnv) (c : CId) (m : Misb)
+    (effs : List Effect) (h : handleMisb s unb env c m = some effs) :
+    ∀ f ∈ effs, ∃ k, Signed m.h1 k ∧ Signed m.h2 k ∧ f.val = providerOf (s.get c) k := by
+  obtain ⟨_, _, byz, ds, hz, _, he, _⟩ := handleMisb_some s unb env c m effs h
+  intro f hf
+  rw [he] at hf
+  rcases punishAll_vals _ _ _ _ _ _ _ _ f hf with h0 | ⟨k, hk, hv⟩
+  · cases h0
+  · exact ⟨k, (byzantine_sound m byz hz k hk).1, (byzantine_sound m byz hz k hk).2, hv⟩
+
+/-- … and only when the evidence is valid for that consumer: its chain id, its client, one height not
+    below the minimum evidence height, really different headers, a matching and unexpired trusted
+    consensus state, both commits backed by more than 1/3 of the trusted power and 2/3 of their own -/
+theorem misb_accepted_only_if (s : State) (unb : List Unb) (env : ClientEnv) (c : CId) (m : Misb)
+    (effs : List Effect) (h : handleMisb s unb env c m = some effs) :
+    m.h1.chain = (s.get c).chain ∧ (s.get c).client = some m.client ∧ m.h1.height = m.h2.height ∧
+    (s.get c).evmin ≤ m.h1.height ∧ hashesDiffer m = true ∧
+    env.trustedMatches = true ∧ env.expired = false ∧
+    verifyTrusting m.h1 m.tvals env.clientChain = .ok ∧ verifyTrusting m.h2 m.tvals env.clientChain = .ok ∧
+    verifyLight m.h1 m.h1.chain = .ok ∧ verifyLight m.h2 m.h2.chain = .ok ∧
+    (conflicting m = true ∨ m.h1.round = m.h2.round) := by
+  obtain ⟨hb, hc, byz, ds, hz, _, he, hn⟩ := handleMisb_some s unb env c m effs h
+  simp only [checkMisb, Bool.and_eq_true, beq_iff_eq, decide_eq_true_eq, Bool.not_eq_true'] at hc
+  simp only [misbBasicOK, Bool.and_eq_true, beq_iff_eq, decide_eq_true_eq] at hb
+  obtain ⟨⟨⟨⟨⟨⟨⟨⟨⟨c1, c2⟩, c3⟩, c4⟩, c5⟩, _⟩, c7⟩, c8⟩, c9⟩, c10⟩ := hc
+  refine ⟨c1, c2, c3, c4, c5, c7, c8, c9, c10, hb.1.2, hb.2, ?_⟩
+  by_cases hcf : conflicting m = true
+  · exact Or.inl hcf
+  · right
+    by_cases hr : m.h1.round = m.h2.round
+    · exact hr
+    · exfalso
+      have := amnesia_identifies_nobody m (by simpa using hcf) hr
+      rw [this] at hz; injection hz with hz; subst hz
+      simp [punishAll] at hn
+
+
+/-- three validators; 0 and 1 sign both conflicting headers, 2 signs only the first: 0 and 1 are
+    punished (non-vacuity of the misbehaviour theorems; a test, not a theorem) -/
+def exMisb : Misb :=
+  { client := "07-tendermint-0",
+    h1 := { chain := "c0-1", height := 7, round := 1, state := 1, data := 1, vals := [(1, 3), (2, 2), (40, 1)],
+            sigs := [⟨1, .commit, true⟩, ⟨2, .commit, true⟩, ⟨40, .commit, true⟩] },
+    h2 := { chain := "c0-1", height := 7, round := 1, state := 2, data := 1, vals := [(1, 3), (2, 2), (40, 1)],
+            sigs := [⟨1, .commit, true⟩, ⟨2, .commit, true⟩, ⟨40, .absent, true⟩] },
+    th := 5, tvals := [(1, 3), (2, 2), (40, 1)] }
+
+example : byzantine exMisb = some [1, 2] := by decide
+example : (handleMisb { exState with stk := exState.stk ++ [{ id := 40, tokens := 1, status := 3, jailed := false, lastPower := 1 }] } []
+    { clientChain := "c0-1", trustedMatches := true, expired := false } "0" exMisb).map (·.map (·.val)) = some [1, 1, 1, 1, 2, 2, 2, 2] := by decide
 
 end ICS.Props.C07
